@@ -13,13 +13,13 @@ From Mos Require Import Base.Prelude Net.Exchange Net.ExchangeProofs.
    (c) so the exchange makes at most own_bound tk = 5*(retry_limit+1) own steps in total (30 pipeline/QUIC, 35 reuse,
        5 DoH), at most ctx_bound = 5 after ctx is done, and mu = 0 only when it has returned. *)
 Theorem C14_ctx_exit : forall tk ls s,
-  exec tk ls init = Some s ->
+  xexec tk ls xinit = Some s ->
   (ctxd s = true -> returned s = false ->
-     (exists a s', is_own a = true /\ step tk s a = Some s') /\
-     ((exists d, pcv s = PDialWait d) \/ (exists f r, pcv s = PWait f r) -> exists s', step tk s AArmCtx = Some s')) /\
-  (forall l s', step tk s l = Some s' -> if is_own l then mu tk s' < mu tk s else mu tk s' <= mu tk s) /\
+     (exists a s', is_own a = true /\ xstep tk s a = Some s') /\
+     ((exists d, pcv s = PDialWait d) \/ (exists f r, pcv s = PWait f r) -> exists s', xstep tk s AArmCtx = Some s')) /\
+  (forall l s', xstep tk s l = Some s' -> if is_own l then mu tk s' < mu tk s else mu tk s' <= mu tk s) /\
   count_own ls + mu tk s <= own_bound tk /\
-  (ctxd s = true -> forall ls' s', exec tk ls' s = Some s' -> count_own ls' <= ctx_bound) /\
+  (ctxd s = true -> forall ls' s', xexec tk ls' s = Some s' -> count_own ls' <= ctx_bound) /\
   (mu tk s = 0 -> returned s = true).
 Proof. exact ctx_exit. Qed.
 Print Assumptions C14_ctx_exit.
@@ -28,7 +28,7 @@ Print Assumptions C14_ctx_exit.
 Theorem C14_only_waits_block : forall tk s,
   returned s = false ->
   (forall d, pcv s <> PDialWait d) -> (forall f r, pcv s <> PWait f r) ->
-  exists a s', is_own a = true /\ step tk s a = Some s'.
+  exists a s', is_own a = true /\ xstep tk s a = Some s'.
 Proof. exact nonblocking_pc_progress. Qed.
 Print Assumptions C14_only_waits_block.
 
@@ -44,7 +44,7 @@ Print Assumptions C14_retry_bound.
 (* the only step that changes the retry counter is the check after a failure on a REUSED connection with ctx live and
    the counter below the limit; it increments by one and goes back to the top of the loop *)
 Theorem C14_retry_only_reused : forall tk s l s',
-  step tk s l = Some s' -> retry s' <> retry s ->
+  xstep tk s l = Some s' -> retry s' <> retry s ->
   l = ACheck /\ pcv s = PCheck false /\ ctxd s = false /\ retry s < retry_limit tk /\
   retry s' = S (retry s) /\ pcv s' = PGet.
 Proof. exact retry_only_by_check. Qed.
@@ -52,7 +52,7 @@ Print Assumptions C14_retry_only_reused.
 
 (* and the loop re-enters its top in no other way *)
 Theorem C14_loop_only_by_retry : forall tk s l s',
-  step tk s l = Some s' -> pcv s' = PGet -> pcv s <> PGet ->
+  xstep tk s l = Some s' -> pcv s' = PGet -> pcv s <> PGet ->
   l = ACheck /\ pcv s = PCheck false /\ ctxd s = false /\ retry s < retry_limit tk /\ retry s' = S (retry s).
 Proof. exact back_to_get_only_by_retry. Qed.
 Print Assumptions C14_loop_only_by_retry.
@@ -60,21 +60,21 @@ Print Assumptions C14_loop_only_by_retry.
 (* a failure on a freshly dialled connection returns the error: no retry, no further dial *)
 Theorem C14_fresh_failure_returns : forall tk s,
   pcv s = PCheck true ->
-  exists s', step tk s ACheck = Some s' /\ pcv s' = PRet RErr /\ retry s' = retry s /\ dials s' = dials s.
+  exists s', xstep tk s ACheck = Some s' /\ pcv s' = PRet RErr /\ retry s' = retry s /\ dials s' = dials s.
 Proof. exact fresh_failure_returns. Qed.
 Print Assumptions C14_fresh_failure_returns.
 
 Theorem C14_ctx_done_failure_returns : forall tk s f,
   pcv s = PCheck f -> ctxd s = true ->
-  exists s', step tk s ACheck = Some s' /\ pcv s' = PRet RErr /\ retry s' = retry s.
+  exists s', xstep tk s ACheck = Some s' /\ pcv s' = PRet RErr /\ retry s' = retry s.
 Proof. exact ctx_done_failure_returns. Qed.
 Print Assumptions C14_ctx_done_failure_returns.
 
 (* the boundary both ways, for every transport *)
 Theorem C14_retry_boundary : forall tk s,
   pcv s = PCheck false -> ctxd s = false ->
-  (retry s < retry_limit tk -> exists s', step tk s ACheck = Some s' /\ pcv s' = PGet /\ retry s' = S (retry s)) /\
-  (retry_limit tk <= retry s -> exists s', step tk s ACheck = Some s' /\ pcv s' = PRet RErr).
+  (retry s < retry_limit tk -> exists s', xstep tk s ACheck = Some s' /\ pcv s' = PGet /\ retry s' = S (retry s)) /\
+  (retry_limit tk <= retry s -> exists s', xstep tk s ACheck = Some s' /\ pcv s' = PRet RErr).
 Proof. exact retry_boundary. Qed.
 Print Assumptions C14_retry_boundary.
 
@@ -82,18 +82,18 @@ Print Assumptions C14_retry_boundary.
 (* pipelined connections: closeWithErr (one cancellation of the connection context = the label EKill in every waiter)
    enables, in EVERY exchange waiting on that connection, the connection arm, which leaves the wait with an error
    whether or not a reply is queued *)
-Theorem C14_conn_death : forall ws : list state,
+Theorem C14_conn_death : forall ws : list xstate,
   Forall waiting ws ->
-  Forall (fun w => exists w1 w2 f, step TPipe w EKill = Some w1 /\ cdead w1 = true /\
-                                   step TPipe w1 AArmConn = Some w2 /\ pcv w2 = PCheck f) ws.
+  Forall (fun w => exists w1 w2 f, xstep TPipe w EKill = Some w1 /\ cdead w1 = true /\
+                                   xstep TPipe w1 AArmConn = Some w2 /\ pcv w2 = PCheck f) ws.
 Proof. exact pipe_kill_wakes_all. Qed.
 Print Assumptions C14_conn_death.
 
 (* and no sequence of environment steps can disable that arm again *)
 Theorem C14_conn_death_stable : forall ls s,
   waiting s -> cdead s = true -> count_own ls = 0 ->
-  forall s', exec TPipe ls s = Some s' ->
-  waiting s' /\ cdead s' = true /\ exists s2 f, step TPipe s' AArmConn = Some s2 /\ pcv s2 = PCheck f.
+  forall s', xexec TPipe ls s = Some s' ->
+  waiting s' /\ cdead s' = true /\ exists s2 f, xstep TPipe s' AArmConn = Some s2 /\ pcv s2 = PCheck f.
 Proof. exact pipe_dead_arm_stable. Qed.
 Print Assumptions C14_conn_death_stable.
 
@@ -101,11 +101,11 @@ Print Assumptions C14_conn_death_stable.
    worker's failing I/O — a step that needs no reply — posts the error, and the result arm then leaves the wait *)
 Theorem C14_conn_death_worker : forall tk s f r,
   conn_arm tk = false -> pcv s = PWait f r ->
-  exists s1, step tk s EKill = Some s1 /\ pcv s1 = PWait f r /\
+  exists s1, xstep tk s EKill = Some s1 /\ pcv s1 = PWait f r /\
     match r with
-    | Some _ => exists s2, step tk s1 AArmRes = Some s2 /\
+    | Some _ => exists s2, xstep tk s1 AArmRes = Some s2 /\
                            returned s2 || match pcv s2 with PCheck _ => true | _ => false end = true
-    | None => exists s2 s3, step tk s1 (EDeliver false) = Some s2 /\ step tk s2 AArmRes = Some s3 /\
+    | None => exists s2 s3, xstep tk s1 (EDeliver false) = Some s2 /\ xstep tk s2 AArmRes = Some s3 /\
                             match pcv s3 with PCheck _ | PRet RErr => True | _ => False end
     end.
 Proof. exact worker_kill_wakes. Qed.
@@ -127,7 +127,7 @@ Print Assumptions C14_stale_success.
 (* a healthy connection is not blocked: the reply can be queued and taken *)
 Theorem C14_healthy_delivers : forall tk s f,
   pcv s = PWait f None ->
-  exists s1 s2, step tk s (EDeliver true) = Some s1 /\ step tk s1 AArmRes = Some s2 /\ pcv s2 = PRet RReply.
+  exists s1 s2, xstep tk s (EDeliver true) = Some s1 /\ xstep tk s1 AArmRes = Some s2 /\ pcv s2 = PRet RReply.
 Proof. exact healthy_wait_delivers. Qed.
 Print Assumptions C14_healthy_delivers.
 
@@ -172,7 +172,7 @@ Print Assumptions C14_budget_exhausted_pipe_quic.
 (* the scripted runner the harness is compared with only produces executions of the LTS, within the bounds *)
 Theorem C14_script_sound : forall tk pool dialf o,
   run_script tk pool dialf = Some o ->
-  (exists ls s, exec tk ls init = Some s /\ pcv s = PRet (o_class o) /\
+  (exists ls s, xexec tk ls xinit = Some s /\ pcv s = PRet (o_class o) /\
                 dials s = o_dials o /\ attempts s = o_attempts o /\ ctxd s = o_ctx o) /\
   o_attempts o <= retry_limit tk + 1 /\ o_dials o <= 1.
 Proof. exact run_script_sound_bounds. Qed.
@@ -274,10 +274,10 @@ Proof. vm_compute. repeat split. Qed.
 
 (* a reachable blocked state with ctx done exists (so C14_ctx_exit (a) is not vacuous), and its ctx arm leaves it *)
 Example C14_example_ctx_arm :
-  exists s s', exec TReuse [AGet true; AWrite true; ECtx] init = Some s /\
+  exists s s', xexec TReuse [AGet true; AWrite true; ECtx] xinit = Some s /\
                pcv s = PWait false None /\ ctxd s = true /\ returned s = false /\
-               step TReuse s AArmCtx = Some s' /\ pcv s' = PCheck false /\
-               step TReuse s AArmRes = None.
+               xstep TReuse s AArmCtx = Some s' /\ pcv s' = PCheck false /\
+               xstep TReuse s AArmRes = None.
 Proof. eexists; eexists. vm_compute. repeat split. Qed.
 
 (* the hypotheses of C14_silent_pooled_conn_recovered are met by a concrete execution: one exchange waits on the pooled
